@@ -46,6 +46,10 @@ inductive SOp where
       after the global centre looked the name's list up and before it stores the centre in it (the harness does
       this with a wrapper centre whose `GetId()` performs them) -/
   | gsubh (e c t : Nat)
+  /-- light centre `SubscribeWithReceiver(name, receiver r, cb, args...)` (r ≥ 1) -/
+  | subr (c e t r : Nat)
+  /-- light centre `UnsubscribeWithReceiver(name, receiver r, cb)` : by code pointer and receiver -/
+  | unsubr (c e f r : Nat)
   deriving DecidableEq, Repr, Inhabited
 
 /-- listener template: bound arguments, code pointer (light centre identity), script -/
@@ -128,6 +132,7 @@ structure World where
   locks : List (Nat × Nat)        -- read locks on (centre, name) lists held by dispatch frames (D7 only)
   pubs : Nat                      -- publication counter (ghost)
   direct : List (Nat × Nat)       -- (name, centre) pairs touched by direct calls on the global centre (ghost)
+  recvs : List (Nat × Nat)        -- light centre: listener id ↦ receiver it was subscribed with (absent = none)
   hooked : List Nat               -- templates already used as a racing script (each at most once: termination)
   blocked : Option Block
   deriving Repr, Inhabited
@@ -137,7 +142,7 @@ def maxDepth : Nat := 3
 
 def init (cfg : Cfg) (cs : List (Bool × Bool)) (tm : List (Nat × Tmpl)) : World :=
   { cfg := cfg, cs := cs.map (fun k => ⟨k.1, k.2, true, []⟩), subs := [], gflag := [], greg := [],
-    tmpls := tm, used := [], stack := [], guide := [], out := [], locks := [], pubs := 0, direct := [], hooked := [], blocked := none }
+    tmpls := tm, used := [], stack := [], guide := [], out := [], locks := [], pubs := 0, direct := [], recvs := [], hooked := [], blocked := none }
 
 def tmplOf (w : World) (t : Nat) : Option Tmpl := (w.tmpls.find? (fun x => x.1 == t)).map (·.2)
 
@@ -196,6 +201,40 @@ def doUnsubFn (w : World) (c e f : Nat) : World :=
   | some ct =>
     if !ct.light then emit w .bad
     else match (lisOf w c e).find? (fun l => l.fn == f) with
+      | some l => removeSub w c e l.id
+      | none => emit w (.unsub c e 0 false)
+  | none => emit w .bad
+
+def recvOf (w : World) (id : Nat) : Nat :=
+  match w.recvs.find? (fun x => x.1 == id) with
+  | some x => x.2
+  | none => 0
+
+/-- `ListenerList.FindIdWithReceiver`: a listener that HAS a receiver matches when callback pointer and receiver
+are equal; a listener WITHOUT receiver matches on the callback pointer alone -/
+def recvMatch (w : World) (f r : Nat) (l : Sub) : Bool :=
+  l.fn == f && (recvOf w l.id == 0 || recvOf w l.id == r)
+
+/-- light `SubscribeWithReceiver` -/
+def doSubR (w : World) (c e t r : Nat) : World :=
+  match w.cs[c]?, tmplOf w t with
+  | some ct, some tm =>
+    if !ct.light || r == 0 then emit w .bad
+    else if w.used.contains t then emit w .dup
+    else
+      let w := { w with used := t :: w.used }
+      if !ct.running then emit w (.sub c e t tm.bound false)
+      else if (lisOf w c e).any (recvMatch w tm.fn r) then emit w (.sub c e t tm.bound false)
+      else emit { w with subs := w.subs ++ [⟨c, e, t, tm.bound, tm.fn, false⟩], recvs := (t, r) :: w.recvs }
+             (.sub c e t tm.bound true)
+  | _, _ => emit w .bad
+
+/-- light `UnsubscribeWithReceiver` -/
+def doUnsubR (w : World) (c e f r : Nat) : World :=
+  match w.cs[c]? with
+  | some ct =>
+    if !ct.light || r == 0 then emit w .bad
+    else match (lisOf w c e).find? (recvMatch w f r) with
       | some l => removeSub w c e l.id
       | none => emit w (.unsub c e 0 false)
   | none => emit w .bad
@@ -285,6 +324,8 @@ def execOp (w : World) : SOp → World
   | .gsub e c => doGsub w e c true
   | .gunsub e c => doGsub w e c false
   | .gsubh e c t => doGsubH w e c t
+  | .subr c e t r => doSubR w c e t r
+  | .unsubr c e f r => doUnsubR w c e f r
 
 /-- which listener does the iteration produce next? `none` = the loop ends -/
 def pick (guide : List GTok) (must may : List Sub) : Option Sub × List GTok :=
